@@ -18,6 +18,8 @@ type GuardSpec struct {
 	Edges func(fn *ssa.Function, bind Bind, isVal func(ssa.Value) bool) []Edge
 	// IsVal recognises the value of interest in the entry function.
 	IsVal func(v ssa.Value) bool
+	// ValueFree: the guard is not about a value handed down (e.g. a type test of what the function itself reads)
+	ValueFree bool
 }
 
 // CoverResult is one target site with the verdict.
@@ -72,75 +74,7 @@ func (cg *CallGraph) GuardCover(entry *ssa.Function, target func(*Site) bool, g 
 		}
 		onstack[fn] = true
 		defer delete(onstack, fn)
-		mkIsVal := func(bind Bind, depth int) func(ssa.Value) bool {
-			return func(v ssa.Value) bool {
-				if p, ok := v.(*ssa.Parameter); ok && bind[p] {
-					return true
-				}
-				// spilled bound parameter
-				if u, ok := v.(*ssa.UnOp); ok && u.Op == token.MUL {
-					if a, ok := u.X.(*ssa.Alloc); ok {
-						for _, ref := range *a.Referrers() {
-							if s, ok := ref.(*ssa.Store); ok && s.Addr == a {
-								if p, ok := s.Val.(*ssa.Parameter); ok && bind[p] {
-									return true
-								}
-							}
-						}
-					}
-				}
-				if depth == 0 && g.IsVal != nil {
-					return g.IsVal(v)
-				}
-				return false
-			}
-		}
-		isVal := mkIsVal(bind, depth)
-		edges := g.Edges(fn, bind, isVal)
-		// a guard moved into a helper that returns an error: when every return of the helper that may carry a nil
-		// error is dominated by a passing edge of the guard inside the helper (on the parameter the value is bound
-		// to), the nil edge of the helper's error at the call site is a passing edge here
-		for _, s := range cg.Sites[fn] {
-			h := s.Common().StaticCallee()
-			call, isCall := s.Instr.(*ssa.Call)
-			if h == nil || !isCall || h.Blocks == nil || !cg.isModuleFunc(h) || h == fn {
-				continue
-			}
-			res := h.Signature.Results()
-			if res.Len() == 0 || !isErrorType(res.At(res.Len()-1).Type()) {
-				continue
-			}
-			nb := Bind{}
-			for i, p := range h.Params {
-				if i < len(call.Call.Args) && isVal(call.Call.Args[i]) {
-					nb[p] = true
-				}
-			}
-			if len(nb) == 0 {
-				continue
-			}
-			hEdges := g.Edges(h, nb, mkIsVal(nb, depth+1))
-			if len(hEdges) == 0 {
-				continue
-			}
-			all := true
-			for _, ret := range Returns(h) {
-				rv := retVals(ret)
-				if len(rv) == 0 {
-					continue
-				}
-				last := rv[len(rv)-1]
-				if nonNilAt(last, ret.Block(), 0) {
-					continue // a failing return
-				}
-				if !MustPass(h, hEdges, ret.Block()) {
-					all = false
-				}
-			}
-			if all {
-				edges = append(edges, NilEdges(fn, errValues(fn, call), true)...)
-			}
-		}
+		edges, isVal := cg.guardEdgesIn(fn, bind, g, depth)
 		for _, s := range cg.Sites[fn] {
 			blk := s.Instr.Block()
 			if target(s) {
@@ -248,4 +182,81 @@ func eqEdges(fn *ssa.Function, px, py func(ssa.Value) bool) []Edge {
 		}
 		return bo.Op == token.EQL, true
 	})
+}
+
+// guardEdgesIn: the passing edges of guard g in fn - its own, plus the nil edge of the error of every helper call
+// into which the guard was moved: a helper that returns an error, is handed the value of interest (when the guard is
+// about a value) and whose every may-be-nil-error return is dominated by a passing edge of the guard inside it.
+// Also returns the recogniser of the value of interest in fn.
+func (cg *CallGraph) guardEdgesIn(fn *ssa.Function, bind Bind, g GuardSpec, depth int) ([]Edge, func(ssa.Value) bool) {
+	mkIsVal := func(bind Bind, depth int) func(ssa.Value) bool {
+		return func(v ssa.Value) bool {
+			if p, ok := v.(*ssa.Parameter); ok && bind[p] {
+				return true
+			}
+			// spilled bound parameter
+			if u, ok := v.(*ssa.UnOp); ok && u.Op == token.MUL {
+				if a, ok := u.X.(*ssa.Alloc); ok {
+					for _, ref := range *a.Referrers() {
+						if s, ok := ref.(*ssa.Store); ok && s.Addr == a {
+							if p, ok := s.Val.(*ssa.Parameter); ok && bind[p] {
+								return true
+							}
+						}
+					}
+				}
+			}
+			if depth == 0 && g.IsVal != nil {
+				return g.IsVal(v)
+			}
+			return false
+		}
+	}
+	isVal := mkIsVal(bind, depth)
+	edges := g.Edges(fn, bind, isVal)
+	if depth > 3 {
+		return edges, isVal
+	}
+	for _, s := range cg.Sites[fn] {
+		h := s.Common().StaticCallee()
+		call, isCall := s.Instr.(*ssa.Call)
+		if h == nil || !isCall || h.Blocks == nil || !cg.isModuleFunc(h) || h == fn {
+			continue
+		}
+		res := h.Signature.Results()
+		if res.Len() == 0 || !isErrorType(res.At(res.Len()-1).Type()) {
+			continue
+		}
+		nb := Bind{}
+		for i, p := range h.Params {
+			if i < len(call.Call.Args) && isVal(call.Call.Args[i]) {
+				nb[p] = true
+			}
+		}
+		if len(nb) == 0 && !g.ValueFree {
+			continue
+		}
+		hEdges, _ := cg.guardEdgesIn(h, nb, g, depth+1)
+		if len(hEdges) == 0 {
+			continue
+		}
+		all := true
+		for _, ret := range Returns(h) {
+			rv := retVals(ret)
+			if len(rv) == 0 {
+				continue
+			}
+			last := rv[len(rv)-1]
+			if nonNilAt(last, ret.Block(), 0) {
+				continue // a failing return
+			}
+			if !MustPass(h, hEdges, ret.Block()) {
+				all = false
+			}
+		}
+		if all {
+			edges = append(edges, NilEdges(fn, errValues(fn, call), true)...)
+		}
+	}
+	return edges, isVal
 }
